@@ -161,12 +161,15 @@ def check(r) -> list[Fail]:
 
     d = _dir("h")
     fails: list[Fail] = []
+    cwd0 = os.getcwd()
     try:
         planroot = os.path.join(d, "plans")
         os.makedirs(planroot)
         vec = r["vec"]
         nitems = len(r["items"])
-        keys = [f"k{i}" for i in range(nitems)]
+        keys = [(f"k{i}" if i % 2 else f"lig.{i}") for i in range(nitems)]      # every other key has a dot in it (conformer ids, versions)
+        if r.get("dotkeys"):
+            keys = [(f"lig.{i}" if i % 2 == 0 else f"k{i}.v2.x") for i in range(nitems)]
         # ---- source library
         src_path = os.path.join(d, "src." + ("clib" if vec else "mlib"))
         Lib = ml.ConformerLibrary if vec else ml.MoleculeLibrary
@@ -213,6 +216,10 @@ def check(r) -> list[Fail]:
         jobname = ("lenient" if r["lenient"] else "calc") + ("_ens" if vec else "")
         cache_dir = os.path.join(d, "cache")
         scratch = os.path.join(d, "scratch")
+        if r.get("relcache"):
+            # cache and scratch directories named relative to the current directory
+            os.chdir(d)
+            cache_dir, scratch = "cache", os.path.join(".", "scratch")
         count = {u: 0 for us in units.values() for u in us}
         cache = {}     # unit -> (arg, success, text)   [arg stands for the hash: same script <=> same arg]
         n_exec_total = 0
@@ -330,6 +337,10 @@ def check(r) -> list[Fail]:
         nt = any(run["arg"] != r["runs"][0]["arg"] for run in r["runs"][1:]) or any(p != "ok" for it in r["items"] for p in it["plans"])
         tally(units=max(0, len(r["runs"]) - 1), labels={"jobs_executed": n_exec_total, "runs": len(r["runs"])})
     finally:
+        try:
+            os.chdir(cwd0)
+        except Exception:
+            pass
         shutil.rmtree(d, ignore_errors=True)
     seen, out = set(), []
     for f in fails:
@@ -364,6 +375,10 @@ def classify(r):
     if any(run.get("new_dest") for run in r["runs"][1:]):
         lab.append("fresh_destination_same_cache")
     lab.append("input_files=str" if r.get("strfiles") else "input_files=bytes")
+    if r.get("dotkeys"):
+        lab.append("keys_with_dots")
+    if r.get("relcache"):
+        lab.append("relative_cache_and_scratch_dirs")
     if any(run.get("late") for run in r["runs"]):
         lab.append("second_command_cannot_start_somewhere")
     if any(run.get("broken") for run in r["runs"]):
@@ -385,7 +400,7 @@ def strat(tier):
         "items": st.lists(item, min_size=2, max_size=4 if tier == "quick" else 5),
         "pre_source_keys": st.lists(st.integers(0, 9), max_size=2), "n_foreign": st.sampled_from([0, 0, 1, 2]),
         "runs": st.lists(run, min_size=2, max_size=3 if tier == "quick" else 4),
-        "posargs": st.booleans(), "strfiles": st.booleans(),
+        "posargs": st.booleans(), "strfiles": st.booleans(), "dotkeys": st.booleans(), "relcache": st.booleans(),
     })
 
 
